@@ -369,7 +369,7 @@ func dedup(l []string) []string {
 }
 
 func TestHTTPRoutes(t *testing.T) {
-	fx.Run(t, fx.Spec[HCase]{Prop: "C07", Name: "http_routes", Quick: 1600, Thorough: 60000, Gen: genH, Run: runH, Class: classH})
+	fx.Run(t, fx.Spec[HCase]{Prop: "C07", Name: "http_routes", Journal: true, Quick: 1600, Thorough: 60000, Gen: genH, Run: runH, Class: classH})
 }
 
 func decodePath(p string) string {
